@@ -82,6 +82,10 @@ func RunParse(t *testing.T, c *Case, s Sched, keepLog bool) *Obs {
 		under := strings.NewReader(c.Src)
 		r := bufio.NewReaderSize(under, 16)
 		src, pr = r, lenPos{len(c.Src), func() int { return r.Buffered() + under.Len() }}
+	case "invalid-int":
+		src = 42 // not a supported source type: ParseCommands must fail cleanly
+	case "invalid-nil":
+		src = nil
 	default: // scanner
 		sr = gosim.NewSimReader(sim, c.Src, c.Reader)
 		src, pr = sr, sr
